@@ -292,3 +292,112 @@ theorem resolveLoop_spec (reg : Registry) (refs : List RefSite) (m0 : Resolved) 
       exact hother f p hnot.1
 
 end Pydjinni.Front
+
+namespace Pydjinni.Front
+
+/-! ### registrations of a file = its declarations, in order; duplicate rejection at file level -/
+
+@[simp] theorem Collected.regs_append' (a b : Collected) : (a ++ b).regs = a.regs ++ b.regs := rfl
+
+mutual
+theorem regs_walkT (e : Env) (ns : List String) (t : TypeRef) : (walkT e ns t).regs = [] := by
+  cases t with
+  | data name args opt pos => simp [walkT, regs_walkTs e ns args]
+  | fn sig pos => simp only [walkT]; exact regs_walkF e ns sig
+theorem regs_walkTs (e : Env) (ns : List String) (ts : List TypeRef) : (walkTs e ns ts).regs = [] := by
+  cases ts with
+  | nil => rfl
+  | cons t ts => simp [walkTs, regs_walkT e ns t, regs_walkTs e ns ts]
+theorem regs_walkF (e : Env) (ns : List String) (sig : FnSig) : (walkF e ns sig).regs = [] := by
+  cases sig with
+  | mk flags fpos params thr ret =>
+    have h1 := regs_walkOT e ns ret
+    have h2 := regs_walkPs e ns params
+    have h3 := regs_walkOTs e ns thr
+    cases flags <;> simp [walkF, h1, h2, h3] <;> rfl
+theorem regs_walkPs (e : Env) (ns : List String) (ps : List Param) : (walkPs e ns ps).regs = [] := by
+  cases ps with
+  | nil => rfl
+  | cons p ps => cases p with | mk n t pos => simp [walkPs, regs_walkT e ns t, regs_walkPs e ns ps]
+theorem regs_walkOT (e : Env) (ns : List String) (o : Option TypeRef) : (walkOT e ns o).regs = [] := by
+  cases o with
+  | none => rfl
+  | some t => simp only [walkOT]; exact regs_walkT e ns t
+theorem regs_walkOTs (e : Env) (ns : List String) (o : Option (List TypeRef)) : (walkOTs e ns o).regs = [] := by
+  cases o with
+  | none => rfl
+  | some ts => simp only [walkOTs]; exact regs_walkTs e ns ts
+end
+
+theorem regs_walkMethods (e : Env) (ns : List String) (ms : List Method) : (walkMethods e ns ms).regs = [] := by
+  induction ms with
+  | nil => rfl
+  | cons m ms ih =>
+    simp only [walkMethods, walkMethod, Collected.regs_append', regs_walkPs, regs_walkOT, regs_walkOTs, ih, List.append_nil, List.nil_append]
+    split <;> rfl
+
+theorem regs_walkProps (e : Env) (ns : List String) (ps : List Prop') : (walkProps e ns ps).regs = [] := by
+  induction ps with
+  | nil => rfl
+  | cons p ps ih => simp [walkProps, regs_walkT, ih]
+
+theorem regs_walkFields (e : Env) (ns : List String) (fs : List Field) : (walkFields e ns fs).regs = [] := by
+  induction fs with
+  | nil => rfl
+  | cons f fs ih =>
+    simp only [walkFields, walkField, Collected.regs_append', regs_walkT, ih, List.append_nil, List.nil_append]
+    split <;> rfl
+
+theorem regs_walkCodes (e : Env) (ns : List String) (cs : List ErrCode) : (walkCodes e ns cs).regs = [] := by
+  induction cs with
+  | nil => rfl
+  | cons c cs ih => simp [walkCodes, regs_walkPs, ih]
+
+/-- Every declaration — of any kind — is registered exactly once, under its qualified name. -/
+theorem regs_walkDecl (e : Env) (ns : List String) (d : Decl) : (walkDecl e ns d).regs.map (·.key) = [declKey ns d] := by
+  cases d with
+  | enum n c items pos => simp [walkDecl, reg1, declKey]
+  | flags n c items pos => simp [walkDecl, reg1, declKey]
+  | record n c fl fp fields der pos => simp [walkDecl, reg1, declKey, regs_walkFields]
+  | interface n c main fl fp methods props pos => simp [walkDecl, reg1, declKey, regs_walkMethods, regs_walkProps]
+  | function n c sig pos => simp [walkDecl, declKey, regs_walkF]
+  | error n c codes pos => simp [walkDecl, reg1, declKey, regs_walkCodes]
+
+mutual
+theorem regs_walkContent (e : Env) (ns : List String) (c : Content) :
+    (walkContent e ns c).regs.map (·.key) = (declsOfContent ns c).map (fun x => declKey x.1 x.2) := by
+  cases c with
+  | decl d => simp [walkContent, declsOfContent, regs_walkDecl]
+  | ns name cm children pos => simp only [walkContent, declsOfContent]; exact regs_walkContents e _ children
+theorem regs_walkContents (e : Env) (ns : List String) (cs : List Content) :
+    (walkContents e ns cs).regs.map (·.key) = (declsOfContents ns cs).map (fun x => declKey x.1 x.2) := by
+  cases cs with
+  | nil => rfl
+  | cons c cs =>
+    simp only [walkContents, declsOfContents, Collected.regs_append', List.map_append]
+    rw [regs_walkContent e ns c, regs_walkContents e ns cs]
+end
+
+/-- **Duplicates at file level**: the declarations of a file can all be registered iff their qualified names
+    (through any depth of namespaces) are pairwise distinct and none is already taken by a built-in, an external
+    type or a declaration of a file imported before. Otherwise the file is rejected as a duplicate. -/
+theorem file_registers_iff (e : Env) (r : Registry) (contents : List Content) :
+    (∃ r', registerAll r (walkContents e [] contents).regs = .ok r') ↔
+      ((declsOfContents [] contents).map (fun x => declKey x.1 x.2)).Nodup
+        ∧ ∀ x ∈ declsOfContents [] contents, declKey x.1 x.2 ∉ r.map (·.key) := by
+  rw [registerAll_ok_iff, regs_walkContents]
+  apply and_congr Iff.rfl
+  have hk := regs_walkContents e [] contents
+  constructor
+  · intro h x hx
+    have : declKey x.1 x.2 ∈ (walkContents e [] contents).regs.map (·.key) := by
+      rw [hk]; exact List.mem_map.mpr ⟨x, hx, rfl⟩
+    obtain ⟨s, hs, hsk⟩ := List.mem_map.mp this
+    rw [← hsk]; exact h s hs
+  · intro h s hs
+    have : s.key ∈ (declsOfContents [] contents).map (fun x => declKey x.1 x.2) := by
+      rw [← hk]; exact List.mem_map.mpr ⟨s, hs, rfl⟩
+    obtain ⟨x, hx, hxk⟩ := List.mem_map.mp this
+    rw [← hxk]; exact h x hx
+
+end Pydjinni.Front
